@@ -8,6 +8,18 @@ Part 3: callers (`stepS`): admissions = grants, per-caller routing, sleeping cal
 -/
 namespace TR.RateLimiter
 
+/-- The configurations for which the limiter invariants (windows, spans, "admitted iff a permit was taken") are
+proved: `limit_for_period ≥ 1`, `refresh_period ≥ 1` tick, and — sliding counter only — a bucket of at least
+`10 · limit` nanoseconds, which keeps the wait estimate (at least `bucket / (10 · previous_count)`) from rounding
+to `Duration::ZERO`. Outside it the model still says what the code does (`Props/C02.lean`, boundary section). -/
+structure Good (cfg : Cfg) : Prop where
+  limit  : 1 ≤ cfg.limit
+  period : 1 ≤ cfg.period
+  est    : cfg.kind = .counter → 10 * cfg.limit ≤ cfg.period * cfg.tickNs
+
+theorem Good.of_not_counter (cfg : Cfg) (hk : cfg.kind ≠ .counter) (hL : 1 ≤ cfg.limit) (hP : 1 ≤ cfg.period) :
+    Good cfg := ⟨hL, hP, fun h => absurd h hk⟩
+
 /-! ## Part 1 — the limiter -/
 
 /-- every window older than the one starting at `u`: it starts at least `P` before `u`, holds at
@@ -54,9 +66,12 @@ structure LimInv (cfg : Cfg) (l : Lim) : Prop where
   fixed    : cfg.kind = .fixed → curLen l + l.avail = cfg.limit
   counter  : cfg.kind = .counter → curLen l = l.cur
   slog     : cfg.kind = .slog → LogInv cfg l
+  prevLe   : cfg.kind = .counter → l.prev ≤ cfg.limit
+  inWin    : cfg.kind ≠ .slog → l.lastTry < l.start + cfg.period
 
-theorem initLim_inv (cfg : Cfg) : LimInv cfg (initLim cfg) := by
-  refine ⟨by simp [initLim], by simp [initLim], by simp [initLim], ?_, ?_, ?_, ?_⟩
+theorem initLim_inv (cfg : Cfg) (hP : 1 ≤ cfg.period) : LimInv cfg (initLim cfg) := by
+  refine ⟨by simp [initLim], by simp [initLim], by simp [initLim], ?_, ?_, ?_, ?_, by simp [initLim],
+    by intro _; simp [initLim]; omega⟩
   · intro _
     exact ⟨⟨[], [], by simp [initLim], by simp⟩, by simp [initLim, Cut, CutBelow], by simp [initLim, flat]⟩
   · intro _; simp [initLim, curLen]
@@ -130,7 +145,7 @@ theorem roomFixed_inv (cfg : Cfg) (l : Lim) (now : Nat) (hk : cfg.kind = .fixed)
   · rename_i hav
     obtain ⟨hw', hcl'⟩ := grant_win cfg { fixedRoll cfg l now with avail := (fixedRoll cfg l now).avail - 1 } now
       ⟨hw.head, hw.cut, hw.flat⟩ (by show curLen (fixedRoll cfg l now) < cfg.limit; omega) hs hlt
-    refine ⟨by simpa [grant] using hs, ?_, ?_, fun _ => ⟨hw'.head, hw'.cut, hw'.flat⟩, ?_, ?_, ?_⟩
+    refine ⟨by simpa [grant] using hs, ?_, ?_, fun _ => ⟨hw'.head, hw'.cut, hw'.flat⟩, ?_, ?_, ?_, ?_, ?_⟩
     · intro t ht; simp [grant, hts] at ht; have := h.tsLe t ht; simp; omega
     · intro t ht
       simp [grant, hg] at ht
@@ -144,47 +159,71 @@ theorem roomFixed_inv (cfg : Cfg) (l : Lim) (now : Nat) (hk : cfg.kind = .fixed)
       rw [this]; simp [grant]; omega
     · intro hc'; rw [hk] at hc'; cases hc'
     · intro hc'; rw [hk] at hc'; cases hc'
-  · refine ⟨by simpa using hs, ?_, ?_, fun _ => ⟨hw.head, hw.cut, hw.flat⟩, fun _ => hc, ?_, ?_⟩
+    · intro hc'; rw [hk] at hc'; cases hc'
+    · intro _; simpa [grant] using hlt
+  · refine ⟨by simpa using hs, ?_, ?_, fun _ => ⟨hw.head, hw.cut, hw.flat⟩, fun _ => hc, ?_, ?_, ?_, ?_⟩
     · intro t ht; simp [hts] at ht; have := h.tsLe t ht; simp; omega
     · intro t ht; simp [hg] at ht; have := h.grantsLe t ht; simp; omega
     · intro hc'; rw [hk] at hc'; cases hc'
     · intro hc'; rw [hk] at hc'; cases hc'
+    · intro hc'; rw [hk] at hc'; cases hc'
+    · intro _; simpa using hlt
 
 /-! ### sliding counter -/
 
-theorem roomCounter_inv (cfg : Cfg) (l : Lim) (now : Nat) (hk : cfg.kind = .counter)
+/-- the number of grants filed under the current window never exceeds the limit -/
+theorem curLen_le (cfg : Cfg) (l : Lim) (h : WinInv cfg l) : curLen l ≤ cfg.limit := by
+  obtain ⟨⟨g, older, hw, _⟩, hcut, _⟩ := h
+  rw [hw] at hcut
+  simp only [curLen, hw]
+  exact hcut.1
+
+theorem roomCounter_inv (cfg : Cfg) (l : Lim) (now : Nat) (fx : Fx) (hk : cfg.kind = .counter)
     (hP : 1 ≤ cfg.period) (hmono : l.lastTry ≤ now) (h : LimInv cfg l) :
-    LimInv cfg { (roomCounter cfg l now).1 with lastTry := now } := by
+    LimInv cfg { (roomCounter cfg l now fx).1 with lastTry := now } := by
   have hne : cfg.kind ≠ .slog := by rw [hk]; decide
-  have hroll : WinInv cfg (counterRoll cfg l now) ∧ curLen (counterRoll cfg l now) = (counterRoll cfg l now).cur
-      ∧ (counterRoll cfg l now).start ≤ now ∧ now < (counterRoll cfg l now).start + cfg.period
-      ∧ (counterRoll cfg l now).grants = l.grants ∧ (counterRoll cfg l now).ts = l.ts := by
+  have hroll : WinInv cfg (counterRoll cfg l now fx.b1) ∧ curLen (counterRoll cfg l now fx.b1) = (counterRoll cfg l now fx.b1).cur
+      ∧ (counterRoll cfg l now fx.b1).start ≤ now ∧ now < (counterRoll cfg l now fx.b1).start + cfg.period
+      ∧ (counterRoll cfg l now fx.b1).grants = l.grants ∧ (counterRoll cfg l now fx.b1).ts = l.ts
+      ∧ (counterRoll cfg l now fx.b1).prev ≤ cfg.limit := by
     unfold counterRoll
     simp only
     split
     · rename_i hge
       have hs := h.startLe
-      refine ⟨openWin_win cfg _ now ⟨(h.win hne).head, (h.win hne).cut, (h.win hne).flat⟩ (by simp; omega), ?_, ?_, ?_, ?_, ?_⟩
+      refine ⟨openWin_win cfg _ now ⟨(h.win hne).head, (h.win hne).cut, (h.win hne).flat⟩ (by simp; omega), ?_, ?_, ?_, ?_, ?_, ?_⟩
       · simp [openWin, curLen]
       · simp [openWin]
       · simp [openWin]; omega
       · simp [openWin]
       · simp [openWin]
+      · have hc := curLen_le cfg l (h.win hne)
+        have hcc := h.counter hk
+        simp only [openWin]
+        split <;> omega
     · rename_i hlt
       have hs := h.startLe
-      exact ⟨h.win hne, h.counter hk, by omega, by omega, rfl, rfl⟩
-  obtain ⟨hw, hc, hs, hlt, hg, hts⟩ := hroll
+      exact ⟨h.win hne, h.counter hk, by omega, by omega, rfl, rfl, h.prevLe hk⟩
+  obtain ⟨hw, hc, hs, hlt, hg, hts, hpl⟩ := hroll
   unfold roomCounter
   simp only
   split
   · rename_i hroom
-    have hcur : (counterRoll cfg l now).cur < cfg.limit := by
-      have h1 : (counterRoll cfg l now).cur * cfg.period < cfg.limit * cfg.period :=
-        Nat.lt_of_le_of_lt (Nat.le_add_left _ _) hroom
-      exact Nat.lt_of_mul_lt_mul_right h1
-    obtain ⟨hw', hcl'⟩ := grant_win cfg { counterRoll cfg l now with cur := (counterRoll cfg l now).cur + 1 } now
-      ⟨hw.head, hw.cut, hw.flat⟩ (by show curLen (counterRoll cfg l now) < cfg.limit; omega) hs hlt
-    refine ⟨by simpa [grant] using hs, ?_, ?_, fun _ => ⟨hw'.head, hw'.cut, hw'.flat⟩, ?_, ?_, ?_⟩
+    have hcur : (counterRoll cfg l now fx.b1).cur < cfg.limit := by
+      rcases hroom with hroom | ⟨hb, _⟩
+      · have h1 : (counterRoll cfg l now fx.b1).cur * cfg.period < cfg.limit * cfg.period :=
+          Nat.lt_of_le_of_lt (Nat.le_add_left _ _) hroom
+        exact Nat.lt_of_mul_lt_mul_right h1
+      · -- on the boundary with a non-empty previous bucket, part-way into the bucket: the current bucket is not full
+        simp only [onBoundary, Bool.and_eq_true, decide_eq_true_eq] at hb
+        obtain ⟨⟨heq, hp0, _⟩, _⟩ := hb
+        have hpos : 0 < (counterRoll cfg l now fx.b1).prev * (cfg.period - (now - (counterRoll cfg l now fx.b1).start)) :=
+          Nat.mul_pos hp0 (by omega)
+        have h1 : (counterRoll cfg l now fx.b1).cur * cfg.period < cfg.limit * cfg.period := by omega
+        exact Nat.lt_of_mul_lt_mul_right h1
+    obtain ⟨hw', hcl'⟩ := grant_win cfg { counterRoll cfg l now fx.b1 with cur := (counterRoll cfg l now fx.b1).cur + 1 } now
+      ⟨hw.head, hw.cut, hw.flat⟩ (by show curLen (counterRoll cfg l now fx.b1) < cfg.limit; omega) hs hlt
+    refine ⟨by simpa [grant] using hs, ?_, ?_, fun _ => ⟨hw'.head, hw'.cut, hw'.flat⟩, ?_, ?_, ?_, ?_, ?_⟩
     · intro t ht; simp [grant, hts] at ht; have := h.tsLe t ht; simp; omega
     · intro t ht
       simp [grant, hg] at ht
@@ -193,16 +232,19 @@ theorem roomCounter_inv (cfg : Cfg) (l : Lim) (now : Nat) (hk : cfg.kind = .coun
       · simp; omega
     · intro hc'; rw [hk] at hc'; cases hc'
     · intro _
-      have : curLen (grant { counterRoll cfg l now with cur := (counterRoll cfg l now).cur + 1 } now)
-          = curLen (counterRoll cfg l now) + 1 := hcl'
+      have : curLen (grant { counterRoll cfg l now fx.b1 with cur := (counterRoll cfg l now fx.b1).cur + 1 } now)
+          = curLen (counterRoll cfg l now fx.b1) + 1 := hcl'
       show curLen (grant _ now) = _
       rw [this]; simp [grant]; omega
     · intro hc'; rw [hk] at hc'; cases hc'
-  · refine ⟨by simpa using hs, ?_, ?_, fun _ => ⟨hw.head, hw.cut, hw.flat⟩, ?_, fun _ => hc, ?_⟩
+    · intro _; simpa [grant] using hpl
+    · intro _; simpa [grant] using hlt
+  · refine ⟨by simpa using hs, ?_, ?_, fun _ => ⟨hw.head, hw.cut, hw.flat⟩, ?_, fun _ => hc, ?_, fun _ => hpl, ?_⟩
     · intro t ht; simp [hts] at ht; have := h.tsLe t ht; simp; omega
     · intro t ht; simp [hg] at ht; have := h.grantsLe t ht; simp; omega
     · intro hc'; rw [hk] at hc'; cases hc'
     · intro hc'; rw [hk] at hc'; cases hc'
+    · intro _; simpa using hlt
 
 /-! ### sliding log -/
 
@@ -250,7 +292,8 @@ theorem roomLog_inv (cfg : Cfg) (l : Lim) (now : Nat) (hk : cfg.kind = .slog)
   simp only
   split
   · rename_i hlen
-    refine ⟨by simp; omega, ?_, ?_, fun hc => absurd hk hc, fun hc => absurd hc hkf, fun hc => absurd hc hkc, fun _ => ⟨⟨dropped ++ e, ?_, ?_⟩, ?_⟩⟩
+    refine ⟨by simp; omega, ?_, ?_, fun hc => absurd hk hc, fun hc => absurd hc hkf, fun hc => absurd hc hkc, fun _ => ⟨⟨dropped ++ e, ?_, ?_⟩, ?_⟩,
+      fun hc => absurd hc hkc, fun hc => absurd hk hc⟩
     · intro t ht
       show t ≤ now
       simp at ht
@@ -297,7 +340,8 @@ theorem roomLog_inv (cfg : Cfg) (l : Lim) (now : Nat) (hk : cfg.kind = .slog)
         have : (l.grants ++ [now])[i + cfg.limit]'(by simp; omega) = now := by
           rw [List.getElem_append_right (by omega)]; simp [hiL]
         rw [this]; exact hold
-  · refine ⟨by simp; omega, ?_, ?_, fun hc => absurd hk hc, fun hc => absurd hc hkf, fun hc => absurd hc hkc, fun _ => ⟨⟨dropped ++ e, ?_, ?_⟩, hspan⟩⟩
+  · refine ⟨by simp; omega, ?_, ?_, fun hc => absurd hk hc, fun hc => absurd hc hkf, fun hc => absurd hc hkc, fun _ => ⟨⟨dropped ++ e, ?_, ?_⟩, hspan⟩,
+      fun hc => absurd hc hkc, fun hc => absurd hk hc⟩
     · intro t ht; exact hlog_le t (hsub t ht)
     · intro t ht; exact Nat.le_trans (hle t ht) hmono
     · simp only; rw [hsplit]; conv => lhs; rw [he]
@@ -309,20 +353,20 @@ theorem roomLog_inv (cfg : Cfg) (l : Lim) (now : Nat) (hk : cfg.kind = .slog)
       · exact hexp d hd
 
 /-- one `try_acquire` keeps the limiter invariant (time does not go backwards) -/
-theorem room_inv (cfg : Cfg) (l : Lim) (now : Nat) (hP : 1 ≤ cfg.period)
-    (hmono : l.lastTry ≤ now) (h : LimInv cfg l) : LimInv cfg (room cfg l now).1 := by
+theorem room_inv (cfg : Cfg) (l : Lim) (now : Nat) (fx : Fx) (hP : 1 ≤ cfg.period)
+    (hmono : l.lastTry ≤ now) (h : LimInv cfg l) : LimInv cfg (room cfg l now fx).1 := by
   unfold room
   cases hk : cfg.kind with
   | fixed => exact roomFixed_inv cfg l now hk hP hmono h
   | slog => exact roomLog_inv cfg l now hk hmono h
-  | counter => exact roomCounter_inv cfg l now hk hP hmono h
+  | counter => exact roomCounter_inv cfg l now fx hk hP hmono h
 
-theorem room_lastTry (cfg : Cfg) (l : Lim) (now : Nat) : (room cfg l now).1.lastTry = now := rfl
+theorem room_lastTry (cfg : Cfg) (l : Lim) (now : Nat) (fx : Fx) : (room cfg l now fx).1.lastTry = now := rfl
 
 /-! ### what one `try_acquire` does to the grant history, and what it answers -/
 
-theorem room_grants (cfg : Cfg) (l : Lim) (now : Nat) :
-    (room cfg l now).1.grants = if (room cfg l now).2 then l.grants ++ [now] else l.grants := by
+theorem room_grants (cfg : Cfg) (l : Lim) (now : Nat) (fx : Fx) :
+    (room cfg l now fx).1.grants = if (room cfg l now fx).2 then l.grants ++ [now] else l.grants := by
   unfold room
   cases hk : cfg.kind with
   | fixed =>
@@ -334,13 +378,13 @@ theorem room_grants (cfg : Cfg) (l : Lim) (now : Nat) :
     split <;> simp
   | counter =>
     simp only [roomCounter]
-    have hg : (counterRoll cfg l now).grants = l.grants := by unfold counterRoll; simp only; split <;> simp [openWin]
+    have hg : (counterRoll cfg l now fx.b1).grants = l.grants := by unfold counterRoll; simp only; split <;> simp [openWin]
     split <;> simp [grant, hg]
 
 /-- A wait answer that puts the caller to sleep: positive, at most the timeout; for the fixed
 window the sleep ends exactly at the end of the current window. -/
-theorem noRoomAns_wait (cfg : Cfg) (l : Lim) (now : Nat) (rej : Bool) (lo hi : Nat)
-    (h : noRoomAns cfg l now rej = .wait lo hi) (hhi : hi ≠ 0) :
+theorem noRoomAns_wait (cfg : Cfg) (l : Lim) (now : Nat) (rej : Bool) (fx : Fx) (lo hi : Nat)
+    (h : noRoomAns cfg l now rej fx = .wait lo hi) (hhi : hi ≠ 0) :
     0 < lo ∧ lo ≤ hi ∧ hi ≤ cfg.timeout ∧
     (cfg.kind = .fixed → l.start ≤ now → now + lo = l.start + cfg.period) := by
   unfold noRoomAns at h
@@ -362,22 +406,72 @@ theorem noRoomAns_wait (cfg : Cfg) (l : Lim) (now : Nat) (rej : Bool) (lo hi : N
   | counter =>
     simp only [hk] at h
     split at h
-    · split at h <;> cases h
     · split at h
-      · injection h with h1 h2
-        rename_i hmin
-        have : min cfg.timeout (cfg.period - (now - l.start)) ≤ cfg.timeout := Nat.min_le_left _ _
-        exact ⟨by omega, by omega, by omega, fun hc => by cases hc⟩
+      · injection h with h1 h2; omega
       · cases h
+    · split at h
+      · split at h <;> cases h
+      · split at h
+        · injection h with h1 h2
+          rename_i hmin
+          have : min cfg.timeout (cfg.period - (now - l.start)) ≤ cfg.timeout := Nat.min_le_left _ _
+          exact ⟨by omega, by omega, by omega, fun hc => by cases hc⟩
+        · cases h
 
-/-- For `limit ≥ 1` a `try_acquire` that took no permit never answers `Ok(Duration::ZERO)`. -/
-theorem no_zero_wait (cfg : Cfg) (l : Lim) (now : Nat) (rej : Bool) (hL : 1 ≤ cfg.limit)
-    (hr : (room cfg l now).2 = false) :
-    zeroWait (noRoomAns cfg (room cfg l now).1 now rej) = false := by
+/-- Sliding counter, `Good` configuration: when the exact test finds no room the wait estimate is at least one
+nanosecond (`estimate ≥ bucket / (10·previous_count)`, `previous_count ≤ limit`, `bucket ≥ 10·limit` ns), so the
+code cannot have returned `Duration::ZERO`. -/
+theorem counter_no_zero (cfg : Cfg) (l : Lim) (now : Nat) (hG : Good cfg) (hk : cfg.kind = .counter)
+    (hprev : l.prev ≤ cfg.limit) (hlt : now - l.start < cfg.period)
+    (hno : ¬ (l.prev * (cfg.period - (now - l.start)) + l.cur * cfg.period < cfg.limit * cfg.period)) :
+    zeroOk cfg l now = false := by
+  have hZ := hG.est hk
+  have hL := hG.limit
+  have ht : 1 ≤ cfg.tickNs := by
+    rcases Nat.eq_zero_or_pos cfg.tickNs with h0 | h0
+    · rw [h0] at hZ; omega
+    · exact h0
+  simp only [zeroOk, decide_eq_false_iff_not, Nat.not_lt]
+  unfold estFrac
+  simp only
+  split
+  · simp only
+    have h1 : 1 ≤ cfg.period - (now - l.start) := by omega
+    calc 1 = 1 * 1 := rfl
+      _ ≤ (cfg.period - (now - l.start)) * cfg.tickNs := Nat.mul_le_mul h1 ht
+  · simp only
+    -- n ≥ B: from the failed test, prev·e ≤ (prev + cur − L)·B
+    have hmul : l.prev * (cfg.period - (now - l.start)) = l.prev * cfg.period - l.prev * (now - l.start) :=
+      Nat.mul_sub l.prev cfg.period (now - l.start)
+    have hpe : l.prev * (now - l.start) ≤ l.prev * cfg.period := Nat.mul_le_mul_left _ (by omega)
+    have hA : (l.prev + l.cur - cfg.limit) * cfg.period = l.prev * cfg.period + l.cur * cfg.period - cfg.limit * cfg.period := by
+      rw [Nat.sub_mul, Nat.add_mul]
+    have hn : (10 * (l.prev + l.cur - cfg.limit) + 1) * cfg.period
+        = 10 * ((l.prev + l.cur - cfg.limit) * cfg.period) + cfg.period := by
+      rw [Nat.add_mul, Nat.mul_assoc, Nat.one_mul]
+    have hpe10 : 10 * l.prev * (now - l.start) = 10 * (l.prev * (now - l.start)) := Nat.mul_assoc _ _ _
+    have hB : cfg.period ≤ (10 * (l.prev + l.cur - cfg.limit) + 1) * cfg.period - 10 * l.prev * (now - l.start) := by
+      rw [hn, hpe10, hA]
+      rw [hmul] at hno
+      omega
+    calc 10 * l.prev ≤ 10 * cfg.limit := by omega
+      _ ≤ cfg.period * cfg.tickNs := hZ
+      _ ≤ ((10 * (l.prev + l.cur - cfg.limit) + 1) * cfg.period - 10 * l.prev * (now - l.start)) * cfg.tickNs :=
+          Nat.mul_le_mul_right _ hB
+
+/-- For a `Good` configuration a `try_acquire` that took no permit never answers `Ok(Duration::ZERO)`. -/
+theorem no_zero_wait (cfg : Cfg) (l : Lim) (now : Nat) (rej : Bool) (fx : Fx) (hG : Good cfg)
+    (hmono : l.lastTry ≤ now) (h : LimInv cfg l)
+    (hr : (room cfg l now fx).2 = false) :
+    zeroWait (noRoomAns cfg (room cfg l now fx).1 now rej fx) = false := by
+  have hL := hG.limit
+  have hinv := room_inv cfg l now fx hG.period hmono h
+  revert hinv
   unfold room at hr ⊢
   unfold noRoomAns
   cases hk : cfg.kind with
   | fixed =>
+    intro _
     simp only [hk] at hr ⊢
     unfold roomFixed at hr ⊢
     simp only at hr ⊢
@@ -396,6 +490,7 @@ theorem no_zero_wait (cfg : Cfg) (l : Lim) (now : Nat) (rej : Bool) (hL : 1 ≤ 
       · rfl
       · simp [zeroWait]; omega
   | slog =>
+    intro _
     simp only [hk] at hr ⊢
     unfold roomLog at hr ⊢
     simp only at hr ⊢
@@ -412,12 +507,30 @@ theorem no_zero_wait (cfg : Cfg) (l : Lim) (now : Nat) (rej : Bool) (hL : 1 ≤ 
         · rfl
         · simp [zeroWait]; omega
   | counter =>
-    simp only
-    split
-    · split <;> rfl
-    · split
-      · rename_i hmin; simp [zeroWait]; omega
-      · rfl
+    intro hinv
+    simp only [hk] at hr hinv ⊢
+    have hne : cfg.kind ≠ .slog := by rw [hk]; decide
+    have hpl := hinv.prevLe hk
+    have hiw := hinv.inWin hne
+    have hsl := hinv.startLe
+    simp only at hpl hiw hsl
+    unfold roomCounter at hr hpl hiw hsl ⊢
+    simp only at hr hpl hiw hsl ⊢
+    split at hr
+    · cases hr
+    · rename_i hno
+      simp only [hno, if_false] at hpl hiw hsl ⊢
+      have hno' : ¬ ((counterRoll cfg l now fx.b1).prev * (cfg.period - (now - (counterRoll cfg l now fx.b1).start))
+          + (counterRoll cfg l now fx.b1).cur * cfg.period < cfg.limit * cfg.period) := fun hh => hno (Or.inl hh)
+      have hz : zeroOk cfg { counterRoll cfg l now fx.b1 with lastTry := now } now = false :=
+        counter_no_zero cfg _ now hG hk hpl (by simp only; omega) hno'
+      split
+      · rw [hz]; rfl
+      · split
+        · split <;> rfl
+        · split
+          · rename_i hmin; simp [zeroWait]; omega
+          · rfl
 
 /-! ## Part 2 — idle refill -/
 
@@ -426,18 +539,29 @@ def Mono : Nat → List Nat → Prop
   | _, [] => True
   | last, t :: ts => last ≤ t ∧ Mono t ts
 
-/-- every one of the successive `try_acquire`s at the given instants takes a permit -/
-def AllGranted (cfg : Cfg) : Lim → List Nat → Prop
+/-- every one of the successive `try_acquire`s at the given instants (with the given observed choices) takes a permit -/
+def AllGranted (cfg : Cfg) : Lim → List (Nat × Fx) → Prop
   | _, [] => True
-  | l, t :: ts => (room cfg l t).2 = true ∧ AllGranted cfg (room cfg l t).1 ts
+  | l, p :: ts => (room cfg l p.1 p.2).2 = true ∧ AllGranted cfg (room cfg l p.1 p.2).1 ts
 
-/-- at least `k` more grants are guaranteed at any instants from `t` on -/
-def Spare (cfg : Cfg) (l : Lim) (t k : Nat) : Prop :=
+/-- At least `k` more grants are guaranteed at any instants from `t` on. `strict = true`: whatever the observed
+choices are; `strict = false`: provided the `f64` bucket count at exactly two buckets comes out as 2 (`b1 = false`). -/
+def Spare (strict : Bool) (cfg : Cfg) (l : Lim) (t k : Nat) : Prop :=
   k ≤ cfg.limit ∧
   match cfg.kind with
   | .fixed => k ≤ l.avail ∨ l.start + cfg.period ≤ t
   | .slog => (expire cfg.period t l.ts).length + k ≤ cfg.limit
-  | .counter => l.prev + l.cur + k ≤ cfg.limit ∨ l.start + 2 * cfg.period ≤ t
+  | .counter => l.prev + l.cur + k ≤ cfg.limit ∨
+      (if strict then l.start + 2 * cfg.period < t else l.start + 2 * cfg.period ≤ t)
+
+/-- two or more buckets have passed, and at exactly two the float quotient did not slip below 2 -/
+theorem twoBuckets_true (cfg : Cfg) (e : Nat) (b1 : Bool) (hP : 1 ≤ cfg.period) (he : 2 * cfg.period ≤ e)
+    (hb : e = 2 * cfg.period → b1 = false) : twoBuckets cfg e b1 = true := by
+  unfold twoBuckets
+  split
+  · rename_i h2; simp [hb h2]
+  · have h2 : 2 ≤ e / cfg.period := by rw [Nat.le_div_iff_mul_le (by omega)]; omega
+    simpa using h2
 
 theorem expire_len_le (w now : Nat) (l : List Nat) : (expire w now l).length ≤ l.length := by
   induction l with
@@ -465,9 +589,10 @@ theorem expire_all (w now : Nat) (l : List Nat) (h : ∀ x ∈ l, x + w ≤ now)
     simp only [hx, if_true]
     exact ih (fun y hy => h y (List.mem_cons_of_mem _ hy))
 
-theorem spare_step (cfg : Cfg) (l : Lim) (t t' k : Nat) (hP : 1 ≤ cfg.period)
-    (h : Spare cfg l t (k + 1)) (ht : t ≤ t') :
-    (room cfg l t').2 = true ∧ Spare cfg (room cfg l t').1 t' k := by
+theorem spare_step (strict : Bool) (cfg : Cfg) (l : Lim) (t t' k : Nat) (fx : Fx) (hP : 1 ≤ cfg.period)
+    (hb : strict = false → fx.b1 = false)
+    (h : Spare strict cfg l t (k + 1)) (ht : t ≤ t') :
+    (room cfg l t' fx).2 = true ∧ Spare strict cfg (room cfg l t' fx).1 t' k := by
   obtain ⟨hk1, h⟩ := h
   unfold room Spare
   cases hk : cfg.kind with
@@ -505,34 +630,43 @@ theorem spare_step (cfg : Cfg) (l : Lim) (t t' k : Nat) (hP : 1 ≤ cfg.period)
     unfold roomCounter
     simp only
     -- the bucket after `maybe_rotate_bucket`
-    have hroll : (counterRoll cfg l t').prev + (counterRoll cfg l t').cur + (k + 1) ≤ cfg.limit := by
+    have hroll : (counterRoll cfg l t' fx.b1).prev + (counterRoll cfg l t' fx.b1).cur + (k + 1) ≤ cfg.limit := by
       unfold counterRoll
       simp only
       split
       · rename_i hge
         rcases h with h | h
         · simp [openWin]; split <;> omega
-        · have h2 : 2 ≤ (t' - l.start) / cfg.period := by
-            rw [Nat.le_div_iff_mul_le (by omega)]; omega
+        · have h2 : twoBuckets cfg (t' - l.start) fx.b1 = true := by
+            apply twoBuckets_true cfg _ _ hP
+            · cases strict <;> simp at h <;> omega
+            · intro he
+              cases strict with
+              | true => simp at h; omega
+              | false => exact hb rfl
           simp [openWin, h2]; omega
       · rename_i hlt
         rcases h with h | h
         · exact h
-        · omega
-    have htest : (counterRoll cfg l t').prev * (cfg.period - (t' - (counterRoll cfg l t').start))
-        + (counterRoll cfg l t').cur * cfg.period < cfg.limit * cfg.period := by
-      have h1 : (counterRoll cfg l t').prev * (cfg.period - (t' - (counterRoll cfg l t').start))
-          ≤ (counterRoll cfg l t').prev * cfg.period := Nat.mul_le_mul_left _ (Nat.sub_le _ _)
-      have h2 : ((counterRoll cfg l t').prev + (counterRoll cfg l t').cur + 1) * cfg.period ≤ cfg.limit * cfg.period :=
+        · cases strict <;> simp at h <;> omega
+    have htest : (counterRoll cfg l t' fx.b1).prev * (cfg.period - (t' - (counterRoll cfg l t' fx.b1).start))
+        + (counterRoll cfg l t' fx.b1).cur * cfg.period < cfg.limit * cfg.period := by
+      have h1 : (counterRoll cfg l t' fx.b1).prev * (cfg.period - (t' - (counterRoll cfg l t' fx.b1).start))
+          ≤ (counterRoll cfg l t' fx.b1).prev * cfg.period := Nat.mul_le_mul_left _ (Nat.sub_le _ _)
+      have h2 : ((counterRoll cfg l t' fx.b1).prev + (counterRoll cfg l t' fx.b1).cur + 1) * cfg.period ≤ cfg.limit * cfg.period :=
         Nat.mul_le_mul_right _ (by omega)
       rw [Nat.add_mul, Nat.add_mul] at h2
       omega
-    simp only [htest, if_true]
+    have htest' : (counterRoll cfg l t' fx.b1).prev * (cfg.period - (t' - (counterRoll cfg l t' fx.b1).start))
+        + (counterRoll cfg l t' fx.b1).cur * cfg.period < cfg.limit * cfg.period ∨
+        (onBoundary cfg (counterRoll cfg l t' fx.b1) (t' - (counterRoll cfg l t' fx.b1).start) = true ∧ fx.adm = true) :=
+      Or.inl htest
+    simp only [htest', if_true]
     refine ⟨by first | rfl | trivial, by omega, Or.inl ?_⟩
     simp [grant]; omega
 
-theorem spare_mono (cfg : Cfg) (l : Lim) (t k k' : Nat) (h : Spare cfg l t k) (hk : k' ≤ k) :
-    Spare cfg l t k' := by
+theorem spare_mono (strict : Bool) (cfg : Cfg) (l : Lim) (t k k' : Nat) (h : Spare strict cfg l t k) (hk : k' ≤ k) :
+    Spare strict cfg l t k' := by
   obtain ⟨h0, h⟩ := h
   refine ⟨by omega, ?_⟩
   cases hkind : cfg.kind <;> simp only [hkind] at h ⊢
@@ -544,21 +678,23 @@ theorem spare_mono (cfg : Cfg) (l : Lim) (t k k' : Nat) (h : Spare cfg l t k) (h
     · exact Or.inl (by omega)
     · exact Or.inr h
 
-theorem spare_all (cfg : Cfg) (hP : 1 ≤ cfg.period) (ts : List Nat) :
-    ∀ (l : Lim) (t k : Nat), Spare cfg l t k → Mono t ts → ts.length ≤ k → AllGranted cfg l ts := by
+theorem spare_all (strict : Bool) (cfg : Cfg) (hP : 1 ≤ cfg.period) (ts : List (Nat × Fx))
+    (hb : strict = false → ∀ p ∈ ts, p.2.b1 = false) :
+    ∀ (l : Lim) (t k : Nat), Spare strict cfg l t k → Mono t (ts.map Prod.fst) → ts.length ≤ k → AllGranted cfg l ts := by
   induction ts with
   | nil => intros; trivial
   | cons x xs ih =>
     intro l t k hs hm hlen
     simp at hlen
     have hk1 : k - 1 + 1 = k := by omega
-    have hs1 : Spare cfg l t (k - 1 + 1) := by rw [hk1]; exact hs
-    obtain ⟨hr, hs'⟩ := spare_step cfg l t x (k - 1) hP hs1 hm.1
-    exact ⟨hr, ih _ x (k - 1) hs' hm.2 (by omega)⟩
+    have hs1 : Spare strict cfg l t (k - 1 + 1) := by rw [hk1]; exact hs
+    obtain ⟨hr, hs'⟩ := spare_step strict cfg l t x.1 (k - 1) x.2 hP (fun h => hb h x List.mem_cons_self) hs1 hm.1
+    exact ⟨hr, ih (fun h p hp => hb h p (List.mem_cons_of_mem _ hp)) _ x.1 (k - 1) hs' hm.2 (by omega)⟩
 
-/-- after two periods without a `try_acquire` the limiter has `limit` grants to spare -/
+/-- after two periods without a `try_acquire` the limiter has `limit` grants to spare (sliding counter: unless the
+float bucket count slips at exactly two buckets — `strict = false`) -/
 theorem idle_spare (cfg : Cfg) (l : Lim) (t : Nat) (h : LimInv cfg l)
-    (hidle : l.lastTry + 2 * cfg.period ≤ t) : Spare cfg l t cfg.limit := by
+    (hidle : l.lastTry + 2 * cfg.period ≤ t) : Spare false cfg l t cfg.limit := by
   refine ⟨Nat.le_refl _, ?_⟩
   cases hk : cfg.kind <;> simp only
   · have := h.startLe; exact Or.inr (by omega)
@@ -567,7 +703,21 @@ theorem idle_spare (cfg : Cfg) (l : Lim) (t : Nat) (h : LimInv cfg l)
       intro x hx
       have := h.tsLe x hx; omega
     simp [this]
+  · have := h.startLe; exact Or.inr (by simp; omega)
+
+/-- after more than two periods without a `try_acquire` the limiter has `limit` grants to spare, whatever the
+observed choices are -/
+theorem idle_spare_strict (cfg : Cfg) (l : Lim) (t : Nat) (h : LimInv cfg l)
+    (hidle : l.lastTry + 2 * cfg.period < t) : Spare true cfg l t cfg.limit := by
+  refine ⟨Nat.le_refl _, ?_⟩
+  cases hk : cfg.kind <;> simp only
   · have := h.startLe; exact Or.inr (by omega)
+  · have : expire cfg.period t l.ts = [] := by
+      apply expire_all
+      intro x hx
+      have := h.tsLe x hx; omega
+    simp [this]
+  · have := h.startLe; exact Or.inr (by simp; omega)
 
 /-! ## Part 3 — callers -/
 
@@ -588,11 +738,14 @@ def admittedPh : Option Phase → Nat
   | _ => 0
 
 /-- the state invariant; `pend` = grants taken by the step in progress whose inner call has not
-been made yet (`[]` between steps) -/
+been made yet (`[]` between steps). It holds in every reachable state of EVERY configuration: the limiter's
+own windows / spans (`lim`) need `period ≥ 1` only, "admissions = grants" and the fixed-window clause of `sleep`
+are stated under `Good cfg`, the routing parts
+(`calls`, `count`, `rl`, `nr`, `res`) and the sleepers' deadlines unconditionally. -/
 structure SInvP (cfg : Cfg) (s : State) (pend : List Nat) : Prop where
-  lim    : LimInv cfg s.lim
+  lim    : 1 ≤ cfg.period → LimInv cfg s.lim
   limNow : s.lim.lastTry ≤ s.now
-  grants : s.admits.map Prod.snd ++ pend = s.lim.grants
+  grants : Good cfg → s.admits.map Prod.snd ++ pend = s.lim.grants
   calls  : callList s.log = s.admits.map Prod.fst
   count  : ∀ c, (s.admits.map Prod.fst).count c = admittedPh (phaseOf s c)
   rl     : ∀ c, Ev.result c .rateLimited ∈ s.log → phaseOf s c = some (.done false)
@@ -600,16 +753,16 @@ structure SInvP (cfg : Cfg) (s : State) (pend : List Nat) : Prop where
   res    : ∀ c r, r ≠ .rateLimited → r ≠ .notReady → Ev.result c r ∈ s.log → phaseOf s c = some (.done true)
   sleep  : ∀ c arr lo hi, phaseOf s c = some (.sleeping arr lo hi) →
              arr < lo ∧ lo ≤ hi ∧ hi ≤ arr + cfg.timeout ∧ arr ≤ s.now ∧
-             (cfg.kind = .fixed → lo ≤ s.lim.start ∨ lo = s.lim.start + cfg.period)
+             (Good cfg → cfg.kind = .fixed → lo ≤ s.lim.start ∨ lo = s.lim.start + cfg.period)
 
 abbrev SInv (cfg : Cfg) (s : State) : Prop := SInvP cfg s []
 
 theorem lookup_cons {α : Type} (l : List (Nat × α)) (k c : Nat) (v : α) :
     lookup ((k, v) :: l) c = if k = c then some v else lookup l c := rfl
 
-theorem room_start_fixed (cfg : Cfg) (l : Lim) (now : Nat) (hk : cfg.kind = .fixed) :
-    (now - l.start ≥ cfg.period ∧ (room cfg l now).1.start = now) ∨
-    (now - l.start < cfg.period ∧ (room cfg l now).1.start = l.start) := by
+theorem room_start_fixed (cfg : Cfg) (l : Lim) (now : Nat) (fx : Fx) (hk : cfg.kind = .fixed) :
+    (now - l.start ≥ cfg.period ∧ (room cfg l now fx).1.start = now) ∨
+    (now - l.start < cfg.period ∧ (room cfg l now fx).1.start = l.start) := by
   unfold room
   simp only [hk, roomFixed]
   by_cases hge : now - l.start ≥ cfg.period
@@ -623,28 +776,29 @@ theorem room_start_fixed (cfg : Cfg) (l : Lim) (now : Nat) (hk : cfg.kind = .fix
     rw [hr]; split <;> simp [grant]
 
 /-- the limiter part of a step: one `try_acquire` at the current instant -/
-theorem room_state (cfg : Cfg) (s : State) (hP : 1 ≤ cfg.period) (h : SInv cfg s) :
-    SInvP cfg { s with lim := (room cfg s.lim s.now).1 }
-      (if (room cfg s.lim s.now).2 then [s.now] else []) := by
-  refine ⟨room_inv cfg s.lim s.now hP h.limNow h.lim, Nat.le_refl _, ?_, h.calls, h.count, h.rl, h.nr, h.res, ?_⟩
-  · show s.admits.map Prod.snd ++ _ = (room cfg s.lim s.now).1.grants
+theorem room_state (cfg : Cfg) (s : State) (fx : Fx) (h : SInv cfg s) :
+    SInvP cfg { s with lim := (room cfg s.lim s.now fx).1 }
+      (if (room cfg s.lim s.now fx).2 then [s.now] else []) := by
+  refine ⟨fun hP => room_inv cfg s.lim s.now fx hP h.limNow (h.lim hP), Nat.le_refl _, ?_, h.calls, h.count, h.rl, h.nr, h.res, ?_⟩
+  · intro hG
+    show s.admits.map Prod.snd ++ _ = (room cfg s.lim s.now fx).1.grants
     rw [room_grants]
-    have := h.grants
+    have := h.grants hG
     simp at this
     split <;> simp [this]
   · intro c arr lo hi hc
     obtain ⟨h1, h2, h3, h4, h5⟩ := h.sleep c arr lo hi hc
     refine ⟨h1, h2, h3, h4, ?_⟩
-    intro hk
-    show lo ≤ (room cfg s.lim s.now).1.start ∨ lo = (room cfg s.lim s.now).1.start + cfg.period
-    rcases room_start_fixed cfg s.lim s.now hk with ⟨hge, hst⟩ | ⟨hlt, hst⟩
+    intro hG hk
+    show lo ≤ (room cfg s.lim s.now fx).1.start ∨ lo = (room cfg s.lim s.now fx).1.start + cfg.period
+    rcases room_start_fixed cfg s.lim s.now fx hk with ⟨hge, hst⟩ | ⟨hlt, hst⟩
     · rw [hst]
-      have hs := h.lim.startLe
+      have hs := (h.lim hG.period).startLe
       have hn := h.limNow
-      rcases h5 hk with h5 | h5
+      rcases h5 hG hk with h5 | h5
       · left; omega
       · left; omega
-    · rw [hst]; exact h5 hk
+    · rw [hst]; exact h5 hG hk
 
 theorem outcome_results (c k c' : Nat) (o : Out) (r : Res) (h : Ev.result c' r ∈ outcomeEvents c k o) :
     c' = c ∧ r ≠ .rateLimited ∧ r ≠ .notReady := by
@@ -661,7 +815,7 @@ theorem trans_inv (cfg : Cfg) (s s' : State) (c : Nat) (p : Phase) (evs : List E
     (hph : s'.phase = (c, p) :: s.phase) (hlog : s'.log = s.log ++ evs)
     (hlim : s'.lim = s.lim) (hnow : s'.now = s.now) (hadm : s'.admits = s.admits ++ newAdm)
     (hq : ∀ b, phaseOf s c ≠ some (.done b))
-    (hgr : newAdm.map Prod.snd ++ pend' = pend)
+    (hgr : Good cfg → newAdm.map Prod.snd ++ pend' = pend)
     (hcalls : callList evs = newAdm.map Prod.fst)
     (hothers : ∀ c', c' ≠ c → (newAdm.map Prod.fst).count c' = 0)
     (hcount : (newAdm.map Prod.fst).count c + admittedPh (phaseOf s c) = admittedPh (some p))
@@ -670,12 +824,12 @@ theorem trans_inv (cfg : Cfg) (s s' : State) (c : Nat) (p : Phase) (evs : List E
     (hres : ∀ c' r, r ≠ .rateLimited → r ≠ .notReady → Ev.result c' r ∈ evs → c' = c ∧ p = .done true)
     (hsl : ∀ arr lo hi, p = .sleeping arr lo hi →
         arr < lo ∧ lo ≤ hi ∧ hi ≤ arr + cfg.timeout ∧ arr ≤ s.now ∧
-        (cfg.kind = .fixed → lo ≤ s.lim.start ∨ lo = s.lim.start + cfg.period)) :
+        (Good cfg → cfg.kind = .fixed → lo ≤ s.lim.start ∨ lo = s.lim.start + cfg.period)) :
     SInvP cfg s' pend' := by
   have hphase : ∀ c', phaseOf s' c' = if c = c' then some p else phaseOf s c' := by
     intro c'; unfold phaseOf; rw [hph]; rfl
   refine ⟨by rw [hlim]; exact h.lim, by rw [hlim, hnow]; exact h.limNow, ?_, ?_, ?_, ?_, ?_, ?_, ?_⟩
-  · rw [hadm, hlim, ← h.grants, ← hgr]; simp [List.append_assoc]
+  · intro hG; rw [hadm, hlim, ← h.grants hG, ← hgr hG]; simp [List.append_assoc]
   · have hc0 := h.calls
     rw [hlog, hadm]
     unfold callList at *
@@ -729,11 +883,12 @@ theorem trans_inv (cfg : Cfg) (s s' : State) (c : Nat) (p : Phase) (evs : List E
 
 /-! ### the transitions of a caller -/
 
-theorem startInner_inv (cfg : Cfg) (s : State) (c arr : Nat) (h : SInvP cfg s [s.now])
+theorem startInner_inv (cfg : Cfg) (s : State) (c arr : Nat) (pend : List Nat) (h : SInvP cfg s pend)
+    (hp : Good cfg → pend = [s.now])
     (hq : ∀ b, phaseOf s c ≠ some (.done b)) (h0 : admittedPh (phaseOf s c) = 0) :
     SInv cfg (startInner s c arr) := by
-  apply trans_inv cfg s (startInner s c arr) c (.running arr) [.innerCall c s.serial] [(c, s.now)] [s.now] [] h
-    rfl rfl rfl rfl rfl hq (by simp) rfl
+  apply trans_inv cfg s (startInner s c arr) c (.running arr) [.innerCall c s.serial] [(c, s.now)] pend [] h
+    rfl rfl rfl rfl rfl hq (by intro hG; rw [hp hG]; rfl) rfl
   · intro c' hc'
     have : c ≠ c' := fun e => hc' (Eq.symm e)
     simp [this]
@@ -754,7 +909,7 @@ theorem pollRunning_inv (cfg : Cfg) (s : State) (c arr : Nat) (h : SInv cfg s)
     · rename_i t sc k _ _ _ _
       apply trans_inv cfg s (emit (setPh s c (.done true)) (outcomeEvents c k sc.out)) c (.done true) (outcomeEvents c k sc.out) [] [] [] h rfl rfl rfl rfl (List.append_nil _).symm
       · intro b hb; rw [hph] at hb; cases hb
-      · rfl
+      · intro _; rfl
       · exact outcome_calls _ _ _
       · intro c' _; rfl
       · rw [hph]; rfl
@@ -765,17 +920,18 @@ theorem pollRunning_inv (cfg : Cfg) (s : State) (c arr : Nat) (h : SInv cfg s)
     · exact h
   · exact h
 
-theorem admitCall_inv (cfg : Cfg) (s : State) (c arr : Nat) (h : SInvP cfg s [s.now])
+theorem admitCall_inv (cfg : Cfg) (s : State) (c arr : Nat) (pend : List Nat) (h : SInvP cfg s pend)
+    (hp : Good cfg → pend = [s.now])
     (hq : ∀ b, phaseOf s c ≠ some (.done b)) (h0 : admittedPh (phaseOf s c) = 0) :
     SInv cfg (admitCall s c arr) := by
   unfold admitCall
-  exact pollRunning_inv cfg _ c arr (startInner_inv cfg s c arr h hq h0) (startInner_phase s c arr)
+  exact pollRunning_inv cfg _ c arr (startInner_inv cfg s c arr pend h hp hq h0) (startInner_phase s c arr)
 
-theorem rejectCall_inv (cfg : Cfg) (s : State) (c : Nat) (h : SInv cfg s)
+theorem rejectCall_inv (cfg : Cfg) (s : State) (c arr : Nat) (h : SInv cfg s)
     (hq : ∀ b, phaseOf s c ≠ some (.done b)) (h0 : admittedPh (phaseOf s c) = 0) :
-    SInv cfg (rejectCall s c) := by
-  apply trans_inv cfg s (rejectCall s c) c (.done false) [.result c .rateLimited] [] [] [] h
-    rfl rfl rfl rfl (List.append_nil _).symm hq rfl rfl
+    SInv cfg (rejectCall s c arr) := by
+  apply trans_inv cfg s (rejectCall s c arr) c (.done false) [.result c .rateLimited] [] [] [] h
+    rfl rfl rfl rfl (List.append_nil _).symm hq (fun _ => rfl) rfl
   · intro c' _; rfl
   · rw [h0]; rfl
   · intro c' hm; simp at hm; exact ⟨hm, rfl⟩
@@ -787,7 +943,7 @@ theorem notReadyCall_inv (cfg : Cfg) (s : State) (c : Nat) (h : SInv cfg s)
     (hq : ∀ b, phaseOf s c ≠ some (.done b)) (h0 : admittedPh (phaseOf s c) = 0) :
     SInv cfg (notReadyCall s c) := by
   apply trans_inv cfg s (notReadyCall s c) c (.done false) [.result c .notReady] [] [] [] h
-    rfl rfl rfl rfl (List.append_nil _).symm hq rfl rfl
+    rfl rfl rfl rfl (List.append_nil _).symm hq (fun _ => rfl) rfl
   · intro c' _; rfl
   · rw [h0]; rfl
   · intro c' hm; simp at hm
@@ -819,36 +975,40 @@ theorem badChoice_inv (cfg : Cfg) (s : State) (pend : List Nat) (h : SInvP cfg s
     SInvP cfg (badChoice s) pend :=
   emit_noise_inv cfg s _ pend h rfl (by intro c r hm; simp at hm)
 
-theorem pollFresh_inv (cfg : Cfg) (s : State) (c : Nat) (rej : Bool) (hL : 1 ≤ cfg.limit)
-    (hP : 1 ≤ cfg.period) (h : SInv cfg s) (hph : phaseOf s c = some .fresh) :
-    SInv cfg (pollFresh cfg s c rej) := by
-  have hq : ∀ b, phaseOf { s with lim := (room cfg s.lim s.now).1 } c ≠ some (.done b) := by
+theorem pollFresh_inv (cfg : Cfg) (s : State) (c : Nat) (rej : Bool) (fx : Fx)
+    (h : SInv cfg s) (hph : phaseOf s c = some .fresh) :
+    SInv cfg (pollFresh cfg s c rej fx) := by
+  have hq : ∀ b, phaseOf { s with lim := (room cfg s.lim s.now fx).1 } c ≠ some (.done b) := by
     intro b hb; change phaseOf s c = _ at hb; rw [hph] at hb; cases hb
-  have h0 : admittedPh (phaseOf { s with lim := (room cfg s.lim s.now).1 } c) = 0 := by
+  have h0 : admittedPh (phaseOf { s with lim := (room cfg s.lim s.now fx).1 } c) = 0 := by
     change admittedPh (phaseOf s c) = 0; rw [hph]; rfl
-  have hrs := room_state cfg s hP h
+  have hrs := room_state cfg s fx h
   unfold pollFresh
   simp only
   split
   · rename_i hr
     simp only [hr, if_true] at hrs
-    exact admitCall_inv cfg _ c s.now hrs hq h0
+    exact admitCall_inv cfg _ c s.now _ hrs (fun _ => rfl) hq h0
   · rename_i hr
-    have hr' : (room cfg s.lim s.now).2 = false := by simpa using hr
+    have hr' : (room cfg s.lim s.now fx).2 = false := by simpa using hr
     simp only [hr', Bool.false_eq_true, if_false] at hrs
     split
-    · exact rejectCall_inv cfg _ c hrs hq h0
+    · exact rejectCall_inv cfg _ c s.now hrs hq h0
     · rename_i lo hi hans
-      have hz := no_zero_wait cfg s.lim s.now rej hL hr'
-      rw [hans] at hz
       split
-      · rename_i hhi; simp [zeroWait, hhi] at hz
+      · -- `Ok(Duration::ZERO)` without a permit: impossible in a `Good` configuration, so the limiter clauses are vacuous
+        rename_i hhi
+        refine admitCall_inv cfg _ c s.now _ hrs ?_ hq h0
+        intro hG
+        have hz := no_zero_wait cfg s.lim s.now rej fx hG h.limNow (h.lim hG.period) hr'
+        rw [hans] at hz
+        simp [zeroWait, hhi] at hz
       · rename_i hhi
-        obtain ⟨h1, h2, h3, h4⟩ := noRoomAns_wait cfg _ s.now rej lo hi hans hhi
-        apply trans_inv cfg { s with lim := (room cfg s.lim s.now).1 }
-          (setPh { s with lim := (room cfg s.lim s.now).1 } c (.sleeping s.now (s.now + lo) (s.now + hi)))
+        obtain ⟨h1, h2, h3, h4⟩ := noRoomAns_wait cfg _ s.now rej fx lo hi hans hhi
+        apply trans_inv cfg { s with lim := (room cfg s.lim s.now fx).1 }
+          (setPh { s with lim := (room cfg s.lim s.now fx).1 } c (.sleeping s.now (s.now + lo) (s.now + hi)))
           c (.sleeping s.now (s.now + lo) (s.now + hi)) [] [] [] [] hrs
-          rfl (List.append_nil _).symm rfl rfl (List.append_nil _).symm hq rfl rfl
+          rfl (List.append_nil _).symm rfl rfl (List.append_nil _).symm hq (fun _ => rfl) rfl
         · intro c' _; rfl
         · rw [h0]; rfl
         · intro c' hm; simp at hm
@@ -858,41 +1018,45 @@ theorem pollFresh_inv (cfg : Cfg) (s : State) (c : Nat) (rej : Bool) (hL : 1 ≤
           injection hp with e1 e2 e3
           subst e1 e2 e3
           refine ⟨by omega, by omega, by omega, Nat.le_refl _, ?_⟩
-          intro hk
+          intro hG hk
           right
-          have hs : (room cfg s.lim s.now).1.start ≤ s.now := hrs.lim.startLe
+          have hs : (room cfg s.lim s.now fx).1.start ≤ s.now := (hrs.lim hG.period).startLe
           exact h4 hk hs
     · exact badChoice_inv cfg _ [] hrs
 
-theorem secondTry_inv (cfg : Cfg) (s : State) (c arr lo hi : Nat) (hL : 1 ≤ cfg.limit)
-    (hP : 1 ≤ cfg.period) (h : SInv cfg s) (hph : phaseOf s c = some (.sleeping arr lo hi)) :
-    SInv cfg (secondTry cfg s c arr) := by
-  have hq : ∀ b, phaseOf { s with lim := (room cfg s.lim s.now).1 } c ≠ some (.done b) := by
+theorem secondTry_inv (cfg : Cfg) (s : State) (c arr lo hi : Nat) (fx : Fx)
+    (h : SInv cfg s) (hph : phaseOf s c = some (.sleeping arr lo hi)) :
+    SInv cfg (secondTry cfg s c arr fx) := by
+  have hq : ∀ b, phaseOf { s with lim := (room cfg s.lim s.now fx).1 } c ≠ some (.done b) := by
     intro b hb; change phaseOf s c = _ at hb; rw [hph] at hb; cases hb
-  have h0 : admittedPh (phaseOf { s with lim := (room cfg s.lim s.now).1 } c) = 0 := by
+  have h0 : admittedPh (phaseOf { s with lim := (room cfg s.lim s.now fx).1 } c) = 0 := by
     change admittedPh (phaseOf s c) = 0; rw [hph]; rfl
-  have hrs := room_state cfg s hP h
+  have hrs := room_state cfg s fx h
   unfold secondTry
   simp only
   split
   · rename_i hr
     simp only [hr, if_true] at hrs
-    exact admitCall_inv cfg _ c arr hrs hq h0
+    exact admitCall_inv cfg _ c arr _ hrs (fun _ => rfl) hq h0
   · rename_i hr
-    have hr' : (room cfg s.lim s.now).2 = false := by simpa using hr
+    have hr' : (room cfg s.lim s.now fx).2 = false := by simpa using hr
     simp only [hr', Bool.false_eq_true, if_false] at hrs
-    rw [no_zero_wait cfg s.lim s.now true hL hr']
-    simp only [Bool.false_eq_true, if_false]
-    exact rejectCall_inv cfg _ c hrs hq h0
+    split
+    · rename_i hz
+      refine admitCall_inv cfg _ c arr _ hrs ?_ hq h0
+      intro hG
+      rw [no_zero_wait cfg s.lim s.now true fx hG h.limNow (h.lim hG.period) hr'] at hz
+      cases hz
+    · exact rejectCall_inv cfg _ c arr hrs hq h0
 
-theorem pollSleeping_inv (cfg : Cfg) (s : State) (c arr lo hi : Nat) (woke : Bool) (hL : 1 ≤ cfg.limit)
-    (hP : 1 ≤ cfg.period) (h : SInv cfg s) (hph : phaseOf s c = some (.sleeping arr lo hi)) :
-    SInv cfg (pollSleeping cfg s c arr lo hi woke) := by
+theorem pollSleeping_inv (cfg : Cfg) (s : State) (c arr lo hi : Nat) (woke : Bool) (fx : Fx)
+    (h : SInv cfg s) (hph : phaseOf s c = some (.sleeping arr lo hi)) :
+    SInv cfg (pollSleeping cfg s c arr lo hi woke fx) := by
   unfold pollSleeping
   split
   · exact badChoice_inv cfg s [] h
   · split
-    · exact secondTry_inv cfg s c arr lo hi hL hP h hph
+    · exact secondTry_inv cfg s c arr lo hi fx h hph
     · exact h
 
 theorem dropCaller_inv (cfg : Cfg) (s : State) (c : Nat) (h : SInv cfg s) : SInv cfg (dropCaller s c) := by
@@ -901,7 +1065,7 @@ theorem dropCaller_inv (cfg : Cfg) (s : State) (c : Nat) (h : SInv cfg s) : SInv
   · rename_i hph
     apply trans_inv cfg s (setPh s c (.done false)) c (.done false) [] [] [] [] h rfl (List.append_nil _).symm rfl rfl (List.append_nil _).symm
     · intro b hb; rw [hph] at hb; cases hb
-    · rfl
+    · intro _; rfl
     · rfl
     · intro c' _; rfl
     · rw [hph]; rfl
@@ -912,7 +1076,7 @@ theorem dropCaller_inv (cfg : Cfg) (s : State) (c : Nat) (h : SInv cfg s) : SInv
   · rename_i a lo hi hph
     apply trans_inv cfg s (setPh s c (.done false)) c (.done false) [] [] [] [] h rfl (List.append_nil _).symm rfl rfl (List.append_nil _).symm
     · intro b hb; rw [hph] at hb; cases hb
-    · rfl
+    · intro _; rfl
     · rfl
     · intro c' _; rfl
     · rw [hph]; rfl
@@ -923,7 +1087,7 @@ theorem dropCaller_inv (cfg : Cfg) (s : State) (c : Nat) (h : SInv cfg s) : SInv
   · rename_i a hph
     apply trans_inv cfg s (emit (setPh s c (.done true)) [.innerDrop c ((lookup s.kOf c).getD 0)]) c (.done true) [.innerDrop c ((lookup s.kOf c).getD 0)] [] [] [] h rfl rfl rfl rfl (List.append_nil _).symm
     · intro b hb; rw [hph] at hb; cases hb
-    · rfl
+    · intro _; rfl
     · rfl
     · intro c' _; rfl
     · rw [hph]; rfl
@@ -933,7 +1097,7 @@ theorem dropCaller_inv (cfg : Cfg) (s : State) (c : Nat) (h : SInv cfg s) : SInv
     · intro arr' lo hi hp; cases hp
   · exact h
 
-theorem stepS_inv (cfg : Cfg) (s : State) (op : Op) (hL : 1 ≤ cfg.limit) (hP : 1 ≤ cfg.period)
+theorem stepS_inv (cfg : Cfg) (s : State) (op : Op)
     (h : SInv cfg s) : SInv cfg (stepS cfg s op) := by
   cases op with
   | adv ms =>
@@ -954,7 +1118,7 @@ theorem stepS_inv (cfg : Cfg) (s : State) (op : Op) (hL : 1 ≤ cfg.limit) (hP :
       · exact notReadyCall_inv cfg s c h (by intro b hb; rw [hn] at hb; cases hb) (by rw [hn]; rfl)
       · apply trans_inv cfg s { setPh s c .fresh with script := (c, sc) :: s.script } c .fresh [] [] [] [] h rfl (List.append_nil _).symm rfl rfl (List.append_nil _).symm
         · intro b hb; rw [hn] at hb; cases hb
-        · rfl
+        · intro _; rfl
         · rfl
         · intro c' _; rfl
         · rw [hn]; rfl
@@ -962,11 +1126,11 @@ theorem stepS_inv (cfg : Cfg) (s : State) (op : Op) (hL : 1 ≤ cfg.limit) (hP :
         · intro c' hm; simp at hm
         · intro c' r _ _ hm; simp at hm
         · intro arr' lo hi hp; cases hp
-  | poll c rej woke =>
+  | poll c rej woke fx =>
     simp only [stepS]
     split
-    · rename_i hph; exact pollFresh_inv cfg s c rej hL hP h hph
-    · rename_i arr lo hi hph; exact pollSleeping_inv cfg s c arr lo hi woke hL hP h hph
+    · rename_i hph; exact pollFresh_inv cfg s c rej fx h hph
+    · rename_i arr lo hi hph; exact pollSleeping_inv cfg s c arr lo hi woke fx h hph
     · rename_i arr hph; exact pollRunning_inv cfg s c arr h hph
     · exact h
   | drop c => exact dropCaller_inv cfg s c h
@@ -992,24 +1156,24 @@ theorem stepS_inv (cfg : Cfg) (s : State) (op : Op) (hL : 1 ≤ cfg.limit) (hP :
         exact notReadyCall_inv cfg _ c h' (by intro b hb; rw [hn'] at hb; cases hb) (by rw [hn']; rfl)
 
 theorem init_inv (cfg : Cfg) : SInv cfg (init cfg) := by
-  refine ⟨initLim_inv cfg, Nat.le_refl _, rfl, rfl, ?_, ?_, ?_, ?_, ?_⟩
+  refine ⟨fun hP => initLim_inv cfg hP, Nat.le_refl _, fun _ => rfl, rfl, ?_, ?_, ?_, ?_, ?_⟩
   · intro c; rfl
   · intro c hm; simp [init] at hm
   · intro c hm; simp [init] at hm
   · intro c r _ _ hm; simp [init] at hm
   · intro c arr lo hi hc; simp [init, phaseOf, lookup] at hc
 
-theorem foldl_inv (cfg : Cfg) (hL : 1 ≤ cfg.limit) (hP : 1 ≤ cfg.period) (ops : List Op) (s : State)
+theorem foldl_inv (cfg : Cfg) (ops : List Op) (s : State)
     (h : SInv cfg s) : SInv cfg (ops.foldl (stepS cfg) s) := by
   induction ops generalizing s with
   | nil => simpa
-  | cons o os ih => exact ih _ (stepS_inv cfg s o hL hP h)
+  | cons o os ih => exact ih _ (stepS_inv cfg s o h)
 
-/-- every reachable state satisfies the invariant: all operation sequences, all limits ≥ 1,
-all periods ≥ 1, all timeouts, all three window types -/
-theorem inv_reachable (cfg : Cfg) (hL : 1 ≤ cfg.limit) (hP : 1 ≤ cfg.period) (ops : List Op) :
+/-- every reachable state satisfies the invariant: all operation sequences, ALL configurations (the limiter
+clauses of the invariant are stated under `Good cfg`), all three window types, all observed choices -/
+theorem inv_reachable (cfg : Cfg) (ops : List Op) :
     SInv cfg (run cfg ops) :=
-  foldl_inv cfg hL hP ops _ (init_inv cfg)
+  foldl_inv cfg ops _ (init_inv cfg)
 
 /-! ## Part 4 — one-step facts used by C15 -/
 
@@ -1052,80 +1216,66 @@ theorem admitCall_frame (s : State) (c arr : Nat) :
   · rw [h5, startInner_phase]; trivial
   · rw [h5]; trivial
 
-theorem rejectCall_phase (s : State) (c : Nat) : phaseOf (rejectCall s c) c = some (.done false) := by
+theorem rejectCall_phase (s : State) (c arr : Nat) : phaseOf (rejectCall s c arr) c = some (.done false) := by
   simp [rejectCall, emit, setPh, phaseOf, lookup]
 
 /-- a first poll that finds room reaches the inner service in the same step -/
-theorem pollFresh_admits (cfg : Cfg) (s : State) (c : Nat) (rej : Bool)
-    (hroom : (room cfg s.lim s.now).2 = true) :
-    ∃ rest, (pollFresh cfg s c rej).log = s.log ++ Ev.innerCall c s.serial :: rest := by
+theorem pollFresh_admits (cfg : Cfg) (s : State) (c : Nat) (rej : Bool) (fx : Fx)
+    (hroom : (room cfg s.lim s.now fx).2 = true) :
+    ∃ rest, (pollFresh cfg s c rej fx).log = s.log ++ Ev.innerCall c s.serial :: rest := by
   unfold pollFresh
   simp only [hroom, if_true]
   exact (admitCall_frame _ c s.now).2.2.1
 
+theorem admitCall_decided (s : State) (c arr : Nat) : Decided (phaseOf (admitCall s c arr) c) := by
+  have := (admitCall_frame s c arr).2.2.2
+  revert this
+  generalize phaseOf (admitCall s c arr) c = p
+  intro hp
+  match p, hp with
+  | some (.running _), _ => trivial
+  | some (.done true), _ => trivial
+
 /-- a first poll always leaves the caller decided or sleeping with a timer due within the timeout
 (or the observed choice was not allowed) -/
-theorem pollFresh_outcome (cfg : Cfg) (s : State) (c : Nat) (rej : Bool) :
-    Decided (phaseOf (pollFresh cfg s c rej) c) ∨
-    (∃ lo hi, phaseOf (pollFresh cfg s c rej) c = some (.sleeping s.now lo hi) ∧ hi ≤ s.now + cfg.timeout) ∨
-    pollFresh cfg s c rej = badChoice { s with lim := (room cfg s.lim s.now).1 } := by
+theorem pollFresh_outcome (cfg : Cfg) (s : State) (c : Nat) (rej : Bool) (fx : Fx) :
+    Decided (phaseOf (pollFresh cfg s c rej fx) c) ∨
+    (∃ lo hi, phaseOf (pollFresh cfg s c rej fx) c = some (.sleeping s.now lo hi) ∧ hi ≤ s.now + cfg.timeout) ∨
+    pollFresh cfg s c rej fx = badChoice { s with lim := (room cfg s.lim s.now fx).1 } := by
   unfold pollFresh
   simp only
   split
-  · left
-    have := (admitCall_frame { s with lim := (room cfg s.lim s.now).1 } c s.now).2.2.2
-    revert this
-    generalize phaseOf (admitCall { s with lim := (room cfg s.lim s.now).1 } c s.now) c = p
-    intro hp
-    match p, hp with
-    | some (.running _), _ => trivial
-    | some (.done true), _ => trivial
+  · left; exact admitCall_decided _ c s.now
   · split
     · left; rw [rejectCall_phase]; trivial
     · rename_i lo hi hans
       split
-      · left
-        have := (admitCall_frame { s with lim := (room cfg s.lim s.now).1 } c s.now).2.2.2
-        revert this
-        generalize phaseOf (admitCall { s with lim := (room cfg s.lim s.now).1 } c s.now) c = p
-        intro hp
-        match p, hp with
-        | some (.running _), _ => trivial
-        | some (.done true), _ => trivial
+      · left; exact admitCall_decided _ c s.now
       · rename_i hhi
         right; left
-        obtain ⟨_, _, h3, _⟩ := noRoomAns_wait cfg _ s.now rej lo hi hans hhi
+        obtain ⟨_, _, h3, _⟩ := noRoomAns_wait cfg _ s.now rej fx lo hi hans hhi
         exact ⟨s.now + lo, s.now + hi, by simp [setPh, phaseOf, lookup], by omega⟩
     · right; right; rfl
 
-theorem secondTry_decides (cfg : Cfg) (s : State) (c arr : Nat) :
-    Decided (phaseOf (secondTry cfg s c arr) c) := by
-  have hadm : ∀ s0 : State, Decided (phaseOf (admitCall s0 c arr) c) := by
-    intro s0
-    have := (admitCall_frame s0 c arr).2.2.2
-    revert this
-    generalize phaseOf (admitCall s0 c arr) c = p
-    intro hp
-    match p, hp with
-    | some (.running _), _ => trivial
-    | some (.done true), _ => trivial
+theorem secondTry_decides (cfg : Cfg) (s : State) (c arr : Nat) (fx : Fx) :
+    Decided (phaseOf (secondTry cfg s c arr fx) c) := by
   unfold secondTry
   simp only
   split
-  · exact hadm _
+  · exact admitCall_decided _ c arr
   · split
-    · exact hadm _
+    · exact admitCall_decided _ c arr
     · rw [rejectCall_phase]; trivial
 
 /-- what an admission of a sleeping caller is: a grant taken at the current instant, later than
 the arrival; for the fixed window, in a window that began after the arrival -/
-theorem sleeper_admission (cfg : Cfg) (s : State) (c arr lo hi : Nat) (rej woke : Bool)
-    (hL : 1 ≤ cfg.limit) (h : SInv cfg s) (hph : phaseOf s c = some (.sleeping arr lo hi))
-    (hadm : Admitted (phaseOf (stepS cfg s (.poll c rej woke)) c)) :
-    (room cfg s.lim s.now).2 = true ∧ arr < s.now ∧
-    (stepS cfg s (.poll c rej woke)).lim.grants = s.lim.grants ++ [s.now] ∧
-    (stepS cfg s (.poll c rej woke)).admits = s.admits ++ [(c, s.now)] ∧
-    (cfg.kind = .fixed → arr < (stepS cfg s (.poll c rej woke)).lim.start) := by
+theorem sleeper_admission (cfg : Cfg) (s : State) (c arr lo hi : Nat) (rej woke : Bool) (fx : Fx)
+    (hG : Good cfg) (h : SInv cfg s) (hph : phaseOf s c = some (.sleeping arr lo hi))
+    (hadm : Admitted (phaseOf (stepS cfg s (.poll c rej woke fx)) c)) :
+    (room cfg s.lim s.now fx).2 = true ∧ arr < s.now ∧
+    (stepS cfg s (.poll c rej woke fx)).lim.grants = s.lim.grants ++ [s.now] ∧
+    (stepS cfg s (.poll c rej woke fx)).admits = s.admits ++ [(c, s.now)] ∧
+    (cfg.kind = .fixed → arr < (stepS cfg s (.poll c rej woke fx)).lim.start) := by
   obtain ⟨h1, h2, h3, h4, h5⟩ := h.sleep c arr lo hi hph
   simp only [stepS, hph] at hadm ⊢
   unfold pollSleeping at hadm ⊢
@@ -1147,21 +1297,21 @@ theorem sleeper_admission (cfg : Cfg) (s : State) (c arr lo hi : Nat) (rej woke 
       split at hadm
       · rename_i hr
         simp only [hr, if_true]
-        obtain ⟨f1, f2, _, _⟩ := admitCall_frame { s with lim := (room cfg s.lim s.now).1 } c arr
+        obtain ⟨f1, f2, _, _⟩ := admitCall_frame { s with lim := (room cfg s.lim s.now fx).1 } c arr
         refine ⟨by first | rfl | trivial, by omega, ?_, f2, ?_⟩
-        · rw [f1]; show (room cfg s.lim s.now).1.grants = _
+        · rw [f1]; show (room cfg s.lim s.now fx).1.grants = _
           rw [room_grants, hr]; rfl
         · intro hk
-          rw [f1]; show arr < (room cfg s.lim s.now).1.start
-          rcases room_start_fixed cfg s.lim s.now hk with ⟨hge, hst⟩ | ⟨hlt, hst⟩
+          rw [f1]; show arr < (room cfg s.lim s.now fx).1.start
+          rcases room_start_fixed cfg s.lim s.now fx hk with ⟨hge, hst⟩ | ⟨hlt, hst⟩
           · rw [hst]; omega
           · rw [hst]
-            rcases h5 hk with h5 | h5
+            rcases h5 hG hk with h5 | h5
             · omega
-            · have := h.lim.startLe; have := h.limNow; omega
+            · have := (h.lim hG.period).startLe; have := h.limNow; omega
       · rename_i hr
-        have hr' : (room cfg s.lim s.now).2 = false := by simpa using hr
-        rw [no_zero_wait cfg s.lim s.now true hL hr'] at hadm
+        have hr' : (room cfg s.lim s.now fx).2 = false := by simpa using hr
+        rw [no_zero_wait cfg s.lim s.now true fx hG h.limNow (h.lim hG.period) hr'] at hadm
         simp only [Bool.false_eq_true, if_false] at hadm
         rw [rejectCall_phase] at hadm; cases hadm
     · rw [hph] at hadm; cases hadm
@@ -1175,25 +1325,25 @@ theorem drop_waiter_frame (s : State) (c : Nat)
   rcases hph with hph | ⟨arr, lo, hi, hph⟩ <;> rw [hph] <;> simp [setPh, phaseOf, lookup]
 
 /-- what an admission at the first poll is: a grant taken in that very step -/
-theorem fresh_admission (cfg : Cfg) (s : State) (c : Nat) (rej woke : Bool) (hL : 1 ≤ cfg.limit)
-    (hph : phaseOf s c = some .fresh)
-    (hadm : Admitted (phaseOf (stepS cfg s (.poll c rej woke)) c)) :
-    (room cfg s.lim s.now).2 = true ∧
-    (stepS cfg s (.poll c rej woke)).lim.grants = s.lim.grants ++ [s.now] ∧
-    (stepS cfg s (.poll c rej woke)).admits = s.admits ++ [(c, s.now)] := by
+theorem fresh_admission (cfg : Cfg) (s : State) (c : Nat) (rej woke : Bool) (fx : Fx) (hG : Good cfg)
+    (h : SInv cfg s) (hph : phaseOf s c = some .fresh)
+    (hadm : Admitted (phaseOf (stepS cfg s (.poll c rej woke fx)) c)) :
+    (room cfg s.lim s.now fx).2 = true ∧
+    (stepS cfg s (.poll c rej woke fx)).lim.grants = s.lim.grants ++ [s.now] ∧
+    (stepS cfg s (.poll c rej woke fx)).admits = s.admits ++ [(c, s.now)] := by
   simp only [stepS, hph] at hadm ⊢
   unfold pollFresh at hadm ⊢
   simp only at hadm ⊢
   split at hadm
   · rename_i hr
     simp only [hr, if_true]
-    obtain ⟨f1, f2, _, _⟩ := admitCall_frame { s with lim := (room cfg s.lim s.now).1 } c s.now
+    obtain ⟨f1, f2, _, _⟩ := admitCall_frame { s with lim := (room cfg s.lim s.now fx).1 } c s.now
     refine ⟨by first | rfl | trivial, ?_, f2⟩
-    rw [f1]; show (room cfg s.lim s.now).1.grants = _
+    rw [f1]; show (room cfg s.lim s.now fx).1.grants = _
     rw [room_grants, hr]; rfl
   · rename_i hr
-    have hr' : (room cfg s.lim s.now).2 = false := by simpa using hr
-    have hz := no_zero_wait cfg s.lim s.now rej hL hr'
+    have hr' : (room cfg s.lim s.now fx).2 = false := by simpa using hr
+    have hz := no_zero_wait cfg s.lim s.now rej fx hG h.limNow (h.lim hG.period) hr'
     split at hadm
     · rw [rejectCall_phase] at hadm; cases hadm
     · rename_i lo hi hans
@@ -1204,8 +1354,8 @@ theorem fresh_admission (cfg : Cfg) (s : State) (c : Nat) (rej woke : Bool) (hL 
     · change Admitted (phaseOf s c) at hadm; rw [hph] at hadm; cases hadm
 
 /-- fixed window: there is room iff the window is over or a permit is left -/
-theorem room_fixed_iff (cfg : Cfg) (l : Lim) (now : Nat) (hk : cfg.kind = .fixed) (hL : 1 ≤ cfg.limit) :
-    (room cfg l now).2 = true ↔ (now - l.start ≥ cfg.period ∨ l.avail > 0) := by
+theorem room_fixed_iff (cfg : Cfg) (l : Lim) (now : Nat) (fx : Fx) (hk : cfg.kind = .fixed) (hL : 1 ≤ cfg.limit) :
+    (room cfg l now fx).2 = true ↔ (now - l.start ≥ cfg.period ∨ l.avail > 0) := by
   unfold room
   simp only [hk, roomFixed]
   by_cases hge : now - l.start ≥ cfg.period
@@ -1218,16 +1368,28 @@ theorem room_fixed_iff (cfg : Cfg) (l : Lim) (now : Nat) (hk : cfg.kind = .fixed
     by_cases hav : l.avail > 0 <;> simp [hav, hge]
 
 /-- sliding log: there is room iff fewer than `limit` grants are younger than one period -/
-theorem room_log_iff (cfg : Cfg) (l : Lim) (now : Nat) (hk : cfg.kind = .slog) :
-    (room cfg l now).2 = true ↔ (expire cfg.period now l.ts).length < cfg.limit := by
+theorem room_log_iff (cfg : Cfg) (l : Lim) (now : Nat) (fx : Fx) (hk : cfg.kind = .slog) :
+    (room cfg l now fx).2 = true ↔ (expire cfg.period now l.ts).length < cfg.limit := by
   unfold room
   simp only [hk, roomLog]
   by_cases h : (expire cfg.period now l.ts).length < cfg.limit <;> simp [h]
 
+/-- sliding counter: there is room iff, after the rotation, the weighted count `prev·(1 − e/B) + cur` is below
+the limit — or exactly the limit part-way into a bucket, off the dyadic grid, and the `f64` comparison (observed)
+said "below" -/
+theorem room_counter_iff (cfg : Cfg) (l : Lim) (now : Nat) (fx : Fx) (hk : cfg.kind = .counter) :
+    (room cfg l now fx).2 = true ↔
+      ((counterRoll cfg l now fx.b1).prev * (cfg.period - (now - (counterRoll cfg l now fx.b1).start))
+          + (counterRoll cfg l now fx.b1).cur * cfg.period < cfg.limit * cfg.period ∨
+       (onBoundary cfg (counterRoll cfg l now fx.b1) (now - (counterRoll cfg l now fx.b1).start) = true ∧ fx.adm = true)) := by
+  unfold room
+  simp only [hk, roomCounter]
+  split <;> simp_all
+
 /-- a poll at or after the instant by which the timer must have fired -/
-theorem pollSleeping_due (cfg : Cfg) (s : State) (c arr lo hi : Nat) (hdue : hi ≤ s.now) (hlo : lo ≤ hi) :
-    pollSleeping cfg s c arr lo hi true = secondTry cfg s c arr ∧
-    pollSleeping cfg s c arr lo hi false = badChoice s := by
+theorem pollSleeping_due (cfg : Cfg) (s : State) (c arr lo hi : Nat) (fx : Fx) (hdue : hi ≤ s.now) (hlo : lo ≤ hi) :
+    pollSleeping cfg s c arr lo hi true fx = secondTry cfg s c arr fx ∧
+    pollSleeping cfg s c arr lo hi false fx = badChoice s := by
   unfold pollSleeping
   constructor
   · have h1 : ¬ ((true = true ∧ s.now < lo) ∨ (true = false ∧ hi ≤ s.now)) := by
@@ -1360,7 +1522,7 @@ theorem fstep_reach (cfg : Cfg) (f : Fleet) (op : FOp) (h : FReach cfg f) : FRea
         · exact onInst_reach cfg _ k _ h
         · exact onInst_reach cfg _ k _ h
         · exact onInst_reach cfg _ k _ h
-  | poll c rej woke =>
+  | poll c rej woke fx =>
     simp only [fstep]
     split
     · exact onInst_reach cfg f _ _ h
@@ -1407,7 +1569,7 @@ theorem fstep_other (cfg : Cfg) (f : Fleet) (op : FOp) (k j : Nat) (ht : target 
         · exact onInst_other cfg _ _ j _ hj
         · exact onInst_other cfg _ _ j _ hj
         · exact onInst_other cfg _ _ j _ hj
-  | poll c rej woke =>
+  | poll c rej woke fx =>
     simp only [target] at ht
     simp only [fstep, ht]
     exact onInst_other cfg f k j _ hj
